@@ -101,6 +101,7 @@ package tags
 // ---- the render loop: visits Index(0..l) in order, binds forloop, restores (C11, C12)
 
 //@ func (tags.loopRenderer).render
+//@ requires wvalid: is(w, *render.trimWriter) ==> valid(as(w, *render.trimWriter))
 //@ props C11 C12 C20 C01 C03 C04
 //@ requires args: iter != nil && ctx != nil && w != nil
 //@ ghost wfailed Bool = false
@@ -122,6 +123,7 @@ package tags
 //@ at call Set #1 assert innermost: !brk && !failed && !wfailed
 //@ loop 1 invariant count: n == i && 0 <= i && i <= l && l == iter.Len()
 //@ loop 1 invariant running: !brk && !failed && !wfailed
+//@ loop 1 invariant writer: is(w, *render.trimWriter) ==> valid(as(w, *render.trimWriter))
 //@ ensures complete: result == nil && !brk && !decoratorFailed && !wfailed ==> n == iter.Len()
 //@ ensures childError: failed ==> result != nil
 //@ ensures breakIsNotAnError: !failed && !decoratorFailed && !wfailed ==> result == nil
@@ -158,6 +160,7 @@ package tags
 //@ loop 1 invariant keys: sameold("S$RV") && forall(j, 0, len(ks), rv_valid(ks[j]) && pl_mhas(value, rv_val(ks[j])) && (rv_iface(ks[j]) || (rv_val(ks[j]) != nil && tassignable(typeof(rv_val(ks[j])), tkey(typeof(value))))))
 
 //@ func tags.loopTagCompiler$1
+//@ requires wvalid: is(w, *render.trimWriter) ==> valid(as(w, *render.trimWriter))
 //@ nocapture
 //@ expect func(w io.Writer, ctx render.Context) error
 //@ props C11 C01 C03 C04
@@ -242,6 +245,7 @@ package tags
 // ---- conditionals: exactly the first truthy branch is rendered (C10) --------------
 
 //@ func tags.ifTagCompiler$1$1
+//@ requires wvalid: is(w, *render.trimWriter) ==> valid(as(w, *render.trimWriter))
 //@ nocapture
 //@ expect func(w io.Writer, ctx render.Context) error
 //@ props C10 C01 C03 C04
@@ -260,6 +264,7 @@ package tags
 //@ at call RenderBlock #1 assert firstTruthy: rendered == 0 && falsy == evals - 1 && laste == nil && lastv != nil && lastv != box(false) && arg1 == branches[evals-1].body
 //@ at call RenderBlock #1: rendered = rendered + 1
 //@ loop 1 invariant progress: evals == _i && falsy == _i && rendered == 0
+//@ loop 1 invariant writer: is(w, *render.trimWriter) ==> valid(as(w, *render.trimWriter))
 //@ loop 1 invariant lastFalsy: laste == nil && (evals > 0 ==> lastv == nil || lastv == box(false))
 //@ ensures atMostOne: rendered <= 1
 //@ ensures noneWhenAllFalsy: rendered == 0 && result == nil ==> falsy == len(branches) && evals == len(branches)
@@ -273,6 +278,7 @@ package tags
 //@ assigns nothing
 
 //@ func tags.caseTagCompiler$1
+//@ requires wvalid: is(w, *render.trimWriter) ==> valid(as(w, *render.trimWriter))
 //@ nocapture
 //@ expect func(w io.Writer, ctx render.Context) error
 //@ props C10 C01 C03 C04
@@ -295,6 +301,7 @@ package tags
 //@ at call RenderBlock #1 assert firstMatch: rendered == 0 && misses == tests - 1 && laste == nil && lastb && arg1 == cases[tests-1].body()
 //@ at call RenderBlock #1: rendered = rendered + 1
 //@ loop 1 invariant progress: tests == _i && misses == _i && rendered == 0 && sube == nil
+//@ loop 1 invariant writer: is(w, *render.trimWriter) ==> valid(as(w, *render.trimWriter))
 //@ ensures atMostOne: rendered <= 1
 //@ ensures noneWhenNoMatch: rendered == 0 && result == nil ==> misses == len(cases)
 //@ ensures subjectError: sube != nil ==> result == sube && tests == 0 && rendered == 0
@@ -444,14 +451,18 @@ package tags
 //@ func (tags.sliceWrapper).Len
 //@ pure
 //@ props C01 C11
-//@ ensures def: result == pl_len(rv_val(w)) && result >= 0
+//@ ensures def: result == max(0, pl_len(rv_val(w)))
 //@ func (tags.sliceWrapper).Index
 //@ props C01 C11
 //@ panics nothing
-//@ requires inrange: 0 <= i && i < pl_len(rv_val(w))
+//@ requires inrange: 0 <= i && i < max(0, pl_len(rv_val(w)))
 //@ assigns nothing
 //@ func (tags.mapSliceWrapper).Index
 //@ props C01 C11
 //@ panics nothing
-//@ requires inrange: 0 <= i && i < len(w.ms)
+//@ requires inrange: 0 <= i && i < max(0, len(w.ms))
 //@ assigns alloc S$Val
+//@ func (tags.mapSliceWrapper).Len
+//@ pure
+//@ props C01 C11
+//@ ensures def: result == max(0, len(w.ms))
